@@ -102,6 +102,9 @@ type Runner struct {
 	// armed fault for the next pass
 	faultKind  kubesim.Fault
 	faultNCall int
+	// armed in-pass injection: before the injN-th pool write of the next pass, act on that very key
+	injN, injKind int
+	injCount     int
 	// InPassHook lets a property inject third-party actions inside a pass.
 	InPassHook func(r *Runner, c *kubesim.Call)
 	// Log collects a short human readable trace digest.
@@ -127,6 +130,13 @@ func NewRunner(sc *Scenario, mons ...Monitor) *Runner {
 func (r *Runner) beforeCall(c *kubesim.Call) kubesim.Fault {
 	if r.InPassHook != nil {
 		r.InPassHook(r, c)
+	}
+	if r.injN > 0 && c.Actor == "pko" && !c.DryRun && c.Key.Group != engine.PKOGroup && (c.Verb == "delete" || c.Verb == "patch") {
+		r.injCount++
+		if r.injCount == r.injN {
+			r.injN = 0
+			r.injectOn(c.Key, r.injKind)
+		}
 	}
 	if r.faultKind != kubesim.FaultNone && c.NCall == r.faultNCall {
 		k := r.faultKind
@@ -246,7 +256,7 @@ func (r *Runner) CreateSet(s SetSpec) error {
 				var objs []any
 				for _, o := range part {
 					oso := r.BuildObject(o, s.Cluster)
-					m, _ := kubesim.Normalize(oso)
+					m, _ := kubesim.Normalize(&oso)
 					objs = append(objs, m)
 				}
 				sl.Object["objects"] = objs
@@ -553,6 +563,7 @@ func (r *Runner) Reconcile(ctrlName string, key kubesim.Key) (*PassView, error) 
 	}
 	p := r.W.RunPass(ctrlName, engine.Req(key.Namespace, key.Name))
 	r.faultKind = kubesim.FaultNone
+	r.injN, r.injCount = 0, 0
 	if p.Panic != nil {
 		return nil, Violf("C19", "panic-in-reconcile:"+ctrlName, "controller %s panicked: %v", ctrlName, p.Panic)
 	}
@@ -639,6 +650,10 @@ func (r *Runner) Exec(idx int, st Step) error {
 		kinds := []kubesim.Fault{kubesim.FaultErrorBefore, kubesim.FaultLostResponse, kubesim.FaultCrash, kubesim.FaultCrashAfter}
 		r.faultKind = kinds[mod(st.J, len(kinds))]
 		r.faultNCall = 1 + mod(st.I, 40)
+	case "inject":
+		r.injN = 1 + mod(st.I, 6)
+		r.injKind = st.J
+		r.injCount = 0
 	case "quiesce":
 		_, _, err := r.Quiesce()
 		return err
@@ -789,6 +804,14 @@ func (r *Runner) tpOwn(c client.Client, k kubesim.Key, o map[string]any, st Step
 	if len(r.Sets) > 0 {
 		ref = r.Sets[mod(st.J/len(OwnStates), len(r.Sets))]
 	}
+	// Forging ownership by an ObjectSet that never reconciled (no finalizer yet) is outside every
+	// property's quantifier: such a set rightly assumes it owns nothing.
+	if ref != nil && (state == "set-ctrl" || state == "set-owner" || state == "phase-ctrl") {
+		so := r.W.Store.PeekNoCopy(r.setKey(ref))
+		if so == nil || !hasFinalizerStr(so, constants.CachedFinalizer) {
+			return
+		}
+	}
 	creating := o == nil
 	if creating {
 		p := r.poolObj(st.I)
@@ -936,4 +959,73 @@ func ReplayScenario(data []byte, mk func(sc *Scenario) *Runner) (any, error) {
 	}
 	r := mk(&sc)
 	return &sc, r.Run()
+}
+
+// InjectKinds names the third-party actions that can be injected between PKO's read and its write.
+var InjectKinds = []string{"reown-foreign", "recreate", "edit", "add-owner", "delete", "strip-owners"}
+
+// injectOn performs a third-party action on key k (called from inside a pass, right before PKO's write on k).
+func (r *Runner) injectOn(k kubesim.Key, kind int) {
+	r.Labels["injected"] = true
+	r.W.ActAs("thirdparty", func(c client.Client) {
+		o := r.W.Store.Peek(k)
+		if o == nil {
+			return
+		}
+		md := o["metadata"].(map[string]any)
+		switch InjectKinds[mod(kind, len(InjectKinds))] {
+		case "reown-foreign":
+			var refs []any
+			for _, rf := range engine.OwnerRefs(o) {
+				if rf.UID == "foreign-1" {
+					continue
+				}
+				rf.Controller = false
+				refs = append(refs, refMap(rf))
+			}
+			refs = append(refs, refMap(engine.Ref{APIVersion: "apps/v1", Kind: "Deployment", Name: "foreign", UID: "foreign-1", Controller: true}))
+			md["ownerReferences"] = refs
+			_ = c.Update(r.W.Ctx, engine.U(o))
+		case "recreate":
+			fins := finalizers(o)
+			if len(fins) > 0 {
+				delete(md, "finalizers")
+				_ = c.Update(r.W.Ctx, engine.U(o))
+			}
+			_ = c.Delete(r.W.Ctx, engine.U(o))
+			n := kubesim.DeepCopyJSON(o)
+			nmd := n["metadata"].(map[string]any)
+			for _, f := range []string{"uid", "resourceVersion", "creationTimestamp", "deletionTimestamp", "deletionGracePeriodSeconds", "generation", "finalizers"} {
+				delete(nmd, f)
+			}
+			_ = c.Create(r.W.Ctx, engine.U(n))
+		case "edit":
+			ann, _ := md["annotations"].(map[string]any)
+			if ann == nil {
+				ann = map[string]any{}
+			}
+			ann["verif.example/touched"] = "yes"
+			md["annotations"] = ann
+			_ = c.Update(r.W.Ctx, engine.U(o))
+		case "add-owner":
+			refs, _ := md["ownerReferences"].([]any)
+			refs = append(refs, refMap(engine.Ref{APIVersion: "apps/v1", Kind: "Deployment", Name: "late-owner", UID: "late-1"}))
+			md["ownerReferences"] = refs
+			_ = c.Update(r.W.Ctx, engine.U(o))
+		case "delete":
+			_ = c.Delete(r.W.Ctx, engine.U(o))
+		case "strip-owners":
+			delete(md, "ownerReferences")
+			_ = c.Update(r.W.Ctx, engine.U(o))
+		}
+	})
+}
+
+func hasFinalizerStr(o map[string]any, f string) bool {
+	for _, x := range finalizers(o) {
+		if x == f {
+			return true
+		}
+	}
+	return false
 }
